@@ -12,7 +12,11 @@ about the rational approximations `erf_imp` / `erf_inv_impl`; they are NOT prove
 the taiko / osu! theorems), and are checked on the implementation on a dense grid by the `PP erf` /
 `PP erfinv` lines (the model's transcription is bit-identical to the code there). -/
 structure ErfFacts (sf : Special ℝ) : Prop where
-  erfInv_pos : ∀ z : ℝ, 0 < z → z < 1 → 0 < sf.erfInv z
+  /-- only up to `1 − 10⁻¹¹`: for the transcribed approximation the claim is FALSE on all of (0,1) over ℝ
+  (the last branch of `erf_inv_impl` has a negative leading coefficient: `Y + P(x)/Q(x) < 0` for
+  `x = sqrt(−ln(1−z)) > 6.6·10⁹`); the Wilson bounds the calculators pass stay below `1 − 10⁻¹¹`
+  for up to `2³⁴` hits (`pLowerBound_le`) -/
+  erfInv_pos : ∀ z : ℝ, 0 < z → z ≤ 1 - 1e-11 → 0 < sf.erfInv z
   erf_pos : ∀ x : ℝ, 0 < x → 0 < sf.erf x
 
 theorem zCrit_pos : (0 : ℝ) < zCrit := by
@@ -35,6 +39,26 @@ theorem pLowerBound_mem (n p : ℝ) (hn : 0 < n) (hp0 : 0 < p) (hp1 : p ≤ 1) :
     positivity
   exact Rosu.Finite.pLowerK_mem_Ioo n p zCrit _ hn hp0 hp1 zCrit_pos (Real.sqrt_nonneg _)
     (Real.mul_self_sqrt hrad)
+
+/-- the number of (relevant) hits the bound `1 − 10⁻¹¹` is good for -/
+def maxHits : ℝ := 17179869184
+
+/-- the Wilson bound stays away from 1: `≤ 1 − (z²/2)/(n + z²) ≤ 1 − 10⁻¹¹` for `n ≤ 2³⁴` -/
+theorem pLowerBound_le (n p : ℝ) (hn : 0 < n) (hp0 : 0 ≤ p) (hp1 : p ≤ 1) (hN : n ≤ maxHits) :
+    pLowerBound n p ≤ 1 - 1e-11 := by
+  rw [pLowerBound_eq_K]
+  have hz : (zCrit : ℝ) = 2.32634787404 := rfl
+  have hz0 := zCrit_pos
+  have hd : 0 < n + zCrit * zCrit := by positivity
+  rw [Rosu.Finite.pLowerK_eq n p zCrit _ hd.ne', div_le_iff₀ hd]
+  have hsq : 0 ≤ zCrit * Real.sqrt (n * p * (1 - p) + zCrit * zCrit / 4) :=
+    mul_nonneg hz0.le (Real.sqrt_nonneg _)
+  have hnp : n * p ≤ n := by nlinarith
+  unfold maxHits at hN
+  have hzz : zCrit * zCrit = (2.32634787404 : ℝ) * 2.32634787404 := by rw [hz]
+  rw [hzz] at hsq ⊢
+  norm_num at hsq ⊢
+  nlinarith
 
 theorem pLowerBoundDom_true (n p : ℝ) (hn : 0 < n) (hp0 : 0 ≤ p) (hp1 : p ≤ 1) :
     pLowerBoundDom n p = true := by
@@ -64,6 +88,11 @@ section
 variable (sf : Special ℝ)
 
 /-- the state's proportion of greats -/
+theorem taiko_hits_le (s : TaikoState) (hN : s.totalHits ≤ 2 ^ 34) : (s.totalHits : ℝ) ≤ maxHits := by
+  unfold maxHits
+  have : ((2 ^ 34 : ℕ) : ℝ) = 17179869184 := by norm_num
+  rw [← this]; exact_mod_cast hN
+
 theorem taiko_p_bounds (s : TaikoState) (h : s.n300 ≠ 0) :
     (0 : ℝ) < (s.totalHits : ℝ) ∧ (0 : ℝ) < (s.n300 : ℝ) / (s.totalHits : ℝ)
       ∧ (s.n300 : ℝ) / (s.totalHits : ℝ) ≤ 1 := by
@@ -74,7 +103,8 @@ theorem taiko_p_bounds (s : TaikoState) (h : s.n300 ≠ 0) :
   rw [div_le_one hn]; exact_mod_cast ht
 
 /-- `compute_deviation_upper_bound` returns a positive number whenever it returns -/
-theorem taikoDeviationUpperBound_pos (E : ErfFacts sf) (a : TaikoAttrs ℝ) (s : TaikoState) (v : ℝ)
+theorem taikoDeviationUpperBound_pos (E : ErfFacts sf) (a : TaikoAttrs ℝ) (s : TaikoState)
+    (hN : s.totalHits ≤ 2 ^ 34) (v : ℝ)
     (h : taikoDeviationUpperBound sf a s = some v) : 0 < v := by
   unfold taikoDeviationUpperBound at h
   split at h
@@ -87,13 +117,14 @@ theorem taikoDeviationUpperBound_pos (E : ErfFacts sf) (a : TaikoAttrs ℝ) (s :
     simp only [Option.some.injEq] at h
     rw [← h]
     simp only [r_div, r_mul, r_sqrt, r_ofNat]
-    have he := E.erfInv_pos _ hb.1 hb.2
+    have he := E.erfInv_pos _ hb.1 (pLowerBound_le _ _ hn hp0.le hp1 (taiko_hits_le s hN))
     have hw' : (0 : ℝ) < a.greatHitWindow := by
       have := not_le.mp hw; norm_num at this; exact this
     have := sqrt_two_pos
     positivity
 
-theorem taikoDeviationUpperBoundDom_true (E : ErfFacts sf) (a : TaikoAttrs ℝ) (s : TaikoState) :
+theorem taikoDeviationUpperBoundDom_true (E : ErfFacts sf) (a : TaikoAttrs ℝ) (s : TaikoState)
+    (hN : s.totalHits ≤ 2 ^ 34) :
     taikoDeviationUpperBoundDom sf a s = true := by
   unfold taikoDeviationUpperBoundDom
   split
@@ -103,7 +134,7 @@ theorem taikoDeviationUpperBoundDom_true (E : ErfFacts sf) (a : TaikoAttrs ℝ) 
     obtain ⟨h3, _⟩ := hg
     obtain ⟨hn, hp0, hp1⟩ := taiko_p_bounds s h3
     have hb := pLowerBound_mem _ _ hn hp0 hp1
-    have he := E.erfInv_pos _ hb.1 hb.2
+    have he := E.erfInv_pos _ hb.1 (pLowerBound_le _ _ hn hp0.le hp1 (taiko_hits_le s hN))
     have h2 := sqrt_two_pos
     simp only [r_div, r_mul, r_sqrt, r_ofNat, Bool.and_eq_true, nz_iff, r_lt, r_neg]
     refine ⟨⟨⟨⟨hn.ne', pLowerBoundDom_true _ _ hn hp0.le hp1⟩, ?_⟩, ?_⟩, ?_⟩
@@ -117,7 +148,7 @@ theorem taikoDeviationUpperBoundDom_true (E : ErfFacts sf) (a : TaikoAttrs ℝ) 
 noncomputable def taikoEur (a : TaikoAttrs ℝ) (s : TaikoState) : Option ℝ :=
   (taikoDeviationUpperBound sf a s).map fun v => v * 10.0
 
-theorem taikoEur_pos (E : ErfFacts sf) (a : TaikoAttrs ℝ) (s : TaikoState) (u : ℝ)
+theorem taikoEur_pos (E : ErfFacts sf) (a : TaikoAttrs ℝ) (s : TaikoState) (hN : s.totalHits ≤ 2 ^ 34) (u : ℝ)
     (h : taikoEur sf a s = some u) : 0 < u := by
   unfold taikoEur at h
   cases hv : taikoDeviationUpperBound sf a s with
@@ -125,7 +156,7 @@ theorem taikoEur_pos (E : ErfFacts sf) (a : TaikoAttrs ℝ) (s : TaikoState) (u 
   | some v =>
     rw [hv] at h
     simp only [Option.map_some, Option.some.injEq, r_mul, r_lit] at h
-    have := taikoDeviationUpperBound_pos sf E a s v hv
+    have := taikoDeviationUpperBound_pos sf E a s hN v hv
     rw [← h]; norm_num; exact this
 
 theorem taikoEur_none_of_n300_zero (a : TaikoAttrs ℝ) (s : TaikoState) (h : s.n300 = 0) :
@@ -299,11 +330,11 @@ theorem taikoMultiplier_pos (a : TaikoAttrs ℝ) (m : TaikoMods) : 0 < taikoMult
 
 /-- (b) taiko: every output is non-negative (the unstable rate positive when present) -/
 theorem taikoCalculate_nonneg (E : ErfFacts sf) (a : TaikoAttrs ℝ) (H : TaikoAttrsOK a) (m : TaikoMods)
-    (s : TaikoState) :
+    (s : TaikoState) (hN : s.totalHits ≤ 2 ^ 34) :
     0 ≤ (taikoCalculate sf a m s).pp ∧ 0 ≤ (taikoCalculate sf a m s).ppAcc
       ∧ 0 ≤ (taikoCalculate sf a m s).ppDifficulty ∧ 0 ≤ (taikoCalculate sf a m s).effectiveMissCount
       ∧ ∀ u, (taikoCalculate sf a m s).estimatedUnstableRate = some u → 0 < u := by
-  have hu := taikoEur_pos sf E a s
+  have hu := taikoEur_pos sf E a s hN
   have hd : 0 ≤ (taikoCalculate sf a m s).ppDifficulty := by
     rw [taikoCalculate_diff]; exact taikoDifficultyValue_nonneg sf E a H m _ _ hu
   have ha : 0 ≤ (taikoCalculate sf a m s).ppAcc := by
@@ -320,12 +351,12 @@ theorem powfDom_inv11 {x : ℝ} (h : 0 ≤ x) : powfDom x (1.0 / 1.1 : ℝ) = tr
 
 /-- (a) taiko: every partial operation of `calculate` is in its domain -/
 theorem taikoCalculateDom_true (E : ErfFacts sf) (a : TaikoAttrs ℝ) (H : TaikoAttrsOK a) (m : TaikoMods)
-    (s : TaikoState) : taikoCalculateDom sf a m s = true := by
-  have hu := taikoEur_pos sf E a s
+    (s : TaikoState) (hN : s.totalHits ≤ 2 ^ 34) : taikoCalculateDom sf a m s = true := by
+  have hu := taikoEur_pos sf E a s hN
   have hd : 0 ≤ taikoDifficultyValue sf a m (taikoEmc s) (taikoEur sf a s) :=
     taikoDifficultyValue_nonneg sf E a H m _ _ hu
   have ha : 0 ≤ taikoAccuracyValue a m s (taikoEur sf a s) := taikoAccuracyValue_nonneg a H m s _ hu
-  have e1 := taikoDeviationUpperBoundDom_true sf E a s
+  have e1 := taikoDeviationUpperBoundDom_true sf E a s hN
   have e2 : (if s.n300 + s.n100 > 0 then nz (PPOps.ofNat (s.n300 + s.n100) : ℝ) else true) = true := by
     split_ifs with h
     · rw [nz_iff]; simp only [r_ofNat]; exact_mod_cast (by omega : s.n300 + s.n100 ≠ 0)
